@@ -28,7 +28,12 @@ pub fn post_request(kind: Kind, explicit_te: bool, ver10: bool) -> Request<()> {
 /// `variant` diversifies how the send-body state is reached: method, Expect handshake, despite-method
 pub fn post_request_v(kind: Kind, explicit_te: bool, ver10: bool, variant: usize) -> Request<()> {
     let method = if ver10 { "POST" } else { ["POST", "PUT", "PATCH", "POST", "GET", "DELETE"][variant % 6] };
-    let mut b = Request::builder().method(method).uri("http://h.test/upload");
+    // variant % 17 == 11: origin-form request target and no Host at all (the caller talks to a known peer)
+    let relative = variant % 17 == 11 && variant % 3 != 0;
+    let mut b = Request::builder().method(method).uri(if relative { "/upload?x=1" } else { "http://h.test/upload" });
+    if relative {
+        b = b.header("x-peer", "known");
+    }
     if variant % 4 == 1 {
         b = b.header("expect", "100-continue");
     }
@@ -198,6 +203,12 @@ impl Wut {
             Wut::Flow(f) => guarded(|| f.consume_direct_write(amt)),
             Wut::Call(_) => unreachable!(),
             Wut::Dead => None,
+        }
+    }
+    pub fn is_chunked(&mut self) -> Option<bool> {
+        match self {
+            Wut::Flow(f) => guarded(|| f.is_chunked()),
+            _ => None,
         }
     }
     pub fn max_input(&mut self, n: usize) -> Option<usize> {
@@ -383,6 +394,24 @@ pub fn c03(o: &Opts, t: &mut Tracer) {
             }
         }
     }
+    // (a3) read-only queries at any point, also after the terminator: they change nothing
+    for (k, outl) in [64usize, 5, 6, 11].iter().enumerate() {
+        let mut w = start_case(t, "flow", kind, k % 2 == 1, "queries-anywhere");
+        t.sig(format!("queries/{}", outl));
+        t.class("w:queries-after-end");
+        let _ = w.is_chunked();
+        ev_write(t, &mut w, kind, &data[..7], *outl + 20, WFlags::default());
+        let _ = w.max_input(100);
+        ev_write(t, &mut w, kind, &[], *outl, WFlags::default());
+        ev_write(t, &mut w, kind, &[], 64, WFlags::default());
+        // the body is finished here
+        let _ = w.is_chunked();
+        let _ = w.max_input(64);
+        ev_write(t, &mut w, kind, &[], 64, WFlags::default());
+        ev_write(t, &mut w, kind, &data[..3], 64, WFlags::default());
+        let _ = w.is_chunked();
+        ev_write(t, &mut w, kind, &[], *outl, WFlags::default());
+    }
     // (b) buffers that leave exactly 0..=6 bytes after a chunk, with more input pending
     for api in APIS {
         for &first in &[1usize, 15, 16, 255, 256] {
@@ -564,6 +593,16 @@ pub fn c04(o: &Opts, t: &mut Tracer) {
             c04_schedule(t, api, n, &mut rng, &data, st + (i as u32 % 5));
         }
     }
+    // single writes far larger than any internal step size
+    let big = payload(600_000, 44);
+    for (k, &(n, inl, outl)) in [(300_000u64, 400_000usize, 500_000usize), (300_000, 300_000, 290_000), (600_000, 600_000, 600_000), (262_145, 262_145, 262_144), (1 << 20, 600_000, 524_289)].iter().enumerate() {
+        let kind = Kind::Sized(n);
+        let mut w = start_case(t, APIS[k % 2], kind, false, "large-single-write");
+        t.sig(format!("large/{}/{}/{}", n, inl, outl));
+        t.class("w:larger-than-256k");
+        ev_write(t, &mut w, kind, &big[..inl], outl, WFlags::default());
+        ev_write(t, &mut w, kind, &big[..inl.min(1000)], 64, WFlags::default());
+    }
     // large values: short interactions and direct writes that reach the end
     for &n in &[(1u64 << 32) + 5, u64::MAX, u64::MAX - 3, 1u64 << 63] {
         let kind = Kind::Sized(n);
@@ -618,6 +657,39 @@ pub fn c18(o: &Opts, t: &mut Tracer) {
             let n = ns[rng.gen_range(0..ns.len())];
             ev_max(t, &mut w, kind, n);
         }
+    }
+    // buffer lengths up to the largest a slice can have: the query must answer (no overflow), stay <= n and monotone
+    for (kind, label) in [(Kind::Chunked, "chunked"), (Kind::Sized(1 << 40), "sized"), (Kind::Sized(0), "sized-empty")] {
+        let mut w = start_case(t, "flow", kind, false, "mx-huge");
+        t.sig(format!("sweep-huge/{}", label));
+        let mut prev: Option<(usize, usize)> = None;
+        let mut huge: Vec<usize> = vec![1 << 31, (1 << 32) - 1, 1 << 32, (1usize << 32) + 10247, 1 << 40, usize::MAX / 2, usize::MAX - 20000];
+        huge.extend((0..=10250).step_by(1025).map(|k| usize::MAX - 10250 + k));
+        huge.extend([usize::MAX - 10248, usize::MAX - 10247, usize::MAX - 8, usize::MAX - 1, usize::MAX]);
+        huge.sort();
+        for n in huge {
+            match w.max_input(n) {
+                None => {
+                    t.ev(json!({"ev":"panic","during":format!("calculate_max_input for a buffer length within {} of usize::MAX", usize::MAX - n)}));
+                    break;
+                }
+                Some(m) => {
+                    let mono = prev.map(|(pn, pm)| pn > n || pm <= m).unwrap_or(true);
+                    t.ev(json!({"ev":"mxb","n":limbs(n as u64),"m":limbs(m as u64),"chunked": kind == Kind::Chunked,"mono":mono}));
+                    prev = Some((n, m));
+                }
+            }
+        }
+        t.class("mx:huge");
+    }
+    // a length-delimited body of length 0 is still length-delimited: the advertised maximum is n
+    for n in [0usize, 1, 5, 64, 100000] {
+        let kind = Kind::Sized(0);
+        let mut w = start_case(t, "flow", kind, false, "mx-sized-empty");
+        t.sig(format!("mx-empty/{}", n));
+        ev_max(t, &mut w, kind, n);
+        ev_write(t, &mut w, kind, &[], 16, WFlags::default());
+        ev_max(t, &mut w, kind, n);
     }
     // the write the advertised maximum is meant to bound
     for &n in &ns {
@@ -699,6 +771,31 @@ pub fn c19(o: &Opts, t: &mut Tracer) {
                     break;
                 }
             }
+        }
+    }
+    // a query about one buffer length followed by a write into another: the query is read-only
+    for (k, &(asked, outl)) in [(4usize, 1024usize), (20, 1024), (0, 64), (6, 7), (10, 512), (100000, 64)].iter().enumerate() {
+        for kind in [Kind::Chunked, Kind::Sized(5000)] {
+            let mut w = start_case(t, "flow", kind, k % 2 == 0, "query-then-other-buffer");
+            t.sig(format!("qtob/{}/{}/{:?}", asked, outl, kind));
+            ev_max(t, &mut w, kind, asked);
+            ev_write(t, &mut w, kind, &data[..100], outl, WFlags::default());
+            ev_max(t, &mut w, kind, asked);
+            ev_write(t, &mut w, kind, &data[..300], outl, WFlags::default());
+        }
+    }
+    // many writes in a row that cannot make progress (no room), then room: progress resumes
+    for (k, stalls) in [7usize, 8, 9, 20, 300].iter().enumerate() {
+        for kind in [Kind::Chunked, Kind::Sized(5000)] {
+            let mut w = start_case(t, APIS[k % 2], kind, false, "stalls-then-room");
+            t.sig(format!("stalls/{}/{:?}", stalls, kind));
+            t.class("w:stalls-then-room");
+            for j in 0..*stalls {
+                let room = if kind == Kind::Chunked { j % 6 } else { 0 };
+                ev_write(t, &mut w, kind, &data[..10], room, WFlags::default());
+            }
+            ev_write(t, &mut w, kind, &data[..10], 64, WFlags::default());
+            ev_write(t, &mut w, kind, &data[..10], 6, WFlags::default());
         }
     }
     // one transport buffer filled by appending: the room shrinks from call to call down to less than a chunk
